@@ -13,7 +13,7 @@ import sys
 
 import numpy as np
 
-from common import (Outcome, Machinery, run_tlc, need_ok, run_cases, scratch,
+from common import (unique, Outcome, Machinery, run_tlc, need_ok, run_cases, scratch,
                     validate_traces, settle, seed, main_wrap)
 
 PROP = 'C19'
@@ -138,6 +138,11 @@ def gen_case(rnd, st):
         for k in range(nrec):
             vals.append(rnd.choice(mags) * rnd.choice([1, 1, -1, 2.5]))
             mask.append(1 if rnd.random() < 0.25 else 0)
+            if rnd.random() < 0.2:
+                # a valid value that equals ANOTHER variable's missing code
+                other = [c for c in (-999, -9999, -99999, -888) if c != miss]
+                vals[-1] = float(rnd.choice(other))
+                mask[-1] = 0
         vars_.append({'name': rnd.choice(['O3', 'NO2', 'CO', 'T', 'P', 'RH'])
                       + '_%d' % i, 'unit': rnd.choice(['ppbv', 'K', 'hPa',
                                                        'percent']),
@@ -159,7 +164,7 @@ def run(tier):
                 'writer roles, all structures nv<=4, natt<=4, nrec<=4', r)
     if r.violated:
         out.model_violation(r, 'Icartt_MC')
-    sts = [p for p in r.prints if isinstance(p, dict) and 'nv' in p]
+    sts = unique([p for p in r.prints if isinstance(p, dict) and 'nv' in p])
     if not sts:
         raise Machinery('Icartt_MC emitted nothing')
     reps = 4 if tier == 'quick' else 40
